@@ -990,6 +990,10 @@ impl Model for TwoFamModel {
         sys.broken = now;
         true
     }
+    fn observe(&self, sys: &Sys2) -> u64 {
+        // vacuity check: number of paths per family
+        FAMS2.iter().enumerate().map(|(i, f)| (sys.t.destinations(TableQuery::Global, *f, vec![], true).map(|d| d.paths.len() as u64).sum::<u64>()) * 10u64.pow(i as u32)).sum()
+    }
     fn fingerprint(&self, sys: &Sys2) -> Vec<u8> {
         use std::fmt::Write;
         let mut s = String::new();
